@@ -28,6 +28,14 @@ func genC03(rng *Rng, thorough bool, emit func(*Scenario)) {
 				Calls:   []Call{{Kind: "ping"}, {Kind: "devid"}, {Kind: getKinds[rng.Intn(4)], Addr: a}, {Kind: "ping"}, {Kind: "devid"}, {Kind: "uint", Addr: a}, {Kind: "cmd", Cmd: 3}, {Kind: "cmd", Cmd: 8, Addr: a}}})
 		}
 	}
+	// a port that takes only part of the bytes of a Write (n < len(b), no error): still one frame handed over per attempt
+	for _, ws := range [][]int{{0}, {0, 1, 2, 3, 4, 5, 6, 7, 8, 9, 10, 11}, {1, 3}} {
+		a := uint16(rng.U64())
+		good := simGet(a, 0, []byte{1, 2})
+		emit(&Scenario{Tag: "short-write", WS: ws, MaxWritesPerCall: 8, Replies: [][][]byte{nil, one(good), nil, nil, one(good)},
+			Calls: []Call{{Kind: "uint", Addr: a}, {Kind: "ping"}, {Kind: "devid"}, {Kind: "raw", Addr: a}, {Kind: "cmd", Cmd: 8, Addr: a}}})
+		emit(&Scenario{Tag: "short-write", WS: ws, MaxWritesPerCall: 8, Calls: []Call{{Kind: "str", Addr: a, Want: "err:other"}}})
+	}
 	emit(&Scenario{Tag: "ping", Calls: []Call{{Kind: "ping"}}, MaxWritesPerCall: 1})
 	emit(&Scenario{Tag: "devid", Calls: []Call{{Kind: "devid"}}, MaxWritesPerCall: 1})
 }
@@ -153,6 +161,26 @@ func genC04(rng *Rng, thorough bool, emit func(*Scenario)) {
 		}
 		emitSeq("never-good", seq, 99)
 	}
+	// text-protocol output for a long time - several KiB without a ':' , more than bufio's buffer - in front of the answer
+	longNoise := func(kib int) [][]byte {
+		var cs [][]byte
+		line := []byte("V\t12800\r\nI\t-1500\r\nP\t-19\r\nCE\t-2000\r\nSOC\t995\r\nTTG\t-1\r\nAlarm\tOFF\r\nChecksum\t\x07\r\n")
+		for len(cs) < kib {
+			c := make([]byte, 0, 1024)
+			for len(c) < 1024 {
+				c = append(c, line[:min(len(line), 1024-len(c))]...)
+			}
+			cs = append(cs, c)
+		}
+		return cs
+	}
+	for _, kib := range []int{3, 5, 9, 40} {
+		addr := uint16(rng.U64())
+		good := simGet(addr, 0, []byte{0x96, 0x00})
+		emit(getScenario("long-noise", "uint", addr, [][][]byte{append(longNoise(kib), good)}))
+		emit(getScenario("long-noise", "raw", addr, [][][]byte{nil, nil, nil, nil, nil, nil, nil, append(longNoise(kib), good)}))
+		emit(getScenario("long-noise", "str", addr, [][][]byte{longNoise(kib), one(good)}))
+	}
 	// idle / non-idle histories on one driver instance: stale bytes (an outdated good response for the same
 	// register, or for another one) are left pending by call 1; call 2 comes either at once (non-idle: the
 	// stale frame IS consumed first, as the model says) or after 110 ms (idle: it must be flushed).
@@ -205,6 +233,16 @@ func genC05(rng *Rng, thorough bool, emit func(*Scenario)) {
 				}
 			}
 		}
+		// one driver instance, the same register read again: the answer of *this* read decides, nothing is remembered
+		for _, f := range []byte{1, 2, 4} {
+			for _, k := range getKinds {
+				g := byte([]int{1, 2, 4}[rng.Intn(3)])
+				sc := &Scenario{Tag: "flag-history-" + k, MaxWritesPerCall: 1,
+					Replies: [][][]byte{one(simGet(a, f, nil)), one(simGet(a, g, []byte{9})), one(simGet(a, 0, []byte{0x2A, 0})), one(simGet(a, f, nil))},
+					Calls: []Call{{Kind: k, Addr: a, Want: kinds[f]}, {Kind: getKinds[rng.Intn(4)], Addr: a, Want: kinds[g]}, {Kind: "uint", Addr: a, Want: "ok:42"}, {Kind: k, Addr: a, Want: kinds[f]}}}
+				emit(sc)
+			}
+		}
 		// error frame behind retries: still exactly k frames
 		for _, f := range []byte{1, 2, 4} {
 			k := 1 + rng.Intn(7)
@@ -241,6 +279,10 @@ func genC06(rng *Rng, thorough bool, emit func(*Scenario)) {
 				}
 			}
 		}
+	}
+	// well-formed Get responses carrying values of every width 0..12, 16, 32, 64
+	for _, w := range []int{0, 1, 2, 3, 4, 5, 6, 7, 8, 9, 10, 11, 12, 16, 32, 64} {
+		streams = append(streams, simGet(addr, 0, rng.Bytes(w)))
 	}
 	streams = append(streams, []byte(":\n"), []byte("::\n\n"), []byte(":A\n"), []byte(":A"), []byte(":7\n"), []byte(":\n:\n:\n:\n:\n:\n:\n:\n:\n"),
 		[]byte(":700004E\n"), []byte(":154\n"), []byte(":1AAAA\n"), []byte(":7000100\n"), []byte(":70001004D\n"))
